@@ -129,19 +129,21 @@ fn query_exec(input: &[u8]) -> Out {
 fn conninfo_exec(name: &'static str, input: &[u8], call_full_url: bool) -> Out {
     // through the HTTP/1 decoder, like a peer delivers it
     let Some(r) = crate::hutil::deliver("GET", &[(name, input)]) else { return Out::Skip };
-    let req = crate::hutil::to_http_request(&r);
-    let mut c = 0u32;
-    {
-        let info = req.connection_info();
-        c |= info.realip_remote_addr().is_some() as u32;
-        c |= ((info.host() != "localhost:8080") as u32) << 1;
-        c |= ((info.scheme() != "http") as u32) << 2;
-        c |= (info.peer_addr().is_some() as u32) << 3;
-    }
-    if call_full_url {
-        let u = req.full_url();
-        std::hint::black_box(u.as_str().len());
-    }
+    let c = crate::hutil::with_http_request(&r, |req| {
+        let mut c = 0u32;
+        {
+            let info = req.connection_info();
+            c |= info.realip_remote_addr().is_some() as u32;
+            c |= ((info.host() != "localhost:8080") as u32) << 1;
+            c |= ((info.scheme() != "http") as u32) << 2;
+            c |= (info.peer_addr().is_some() as u32) << 3;
+        }
+        if call_full_url {
+            let u = req.full_url();
+            std::hint::black_box(u.as_str().len());
+        }
+        c
+    });
     class(format!("info={c:x}"))
 }
 
